@@ -15,10 +15,25 @@ finite = gen.finite
 
 
 def _times(draw, n):
-    kind = draw(st.sampled_from(["int", "float", "neg", "irregular"]))
+    kind = draw(st.sampled_from(["int", "float", "neg", "irregular", "offset", "tiny"]))
     if kind == "int":
         t0 = draw(st.integers(-5, 5))
         return [t0 + i for i in range(n)]
+    if kind == "offset":  # frame spacing that is small compared with the absolute time (all values exactly representable)
+        t0 = draw(st.sampled_from([-1.0, 1.0])) * 10.0 ** draw(st.integers(4, 12))
+        out, t = [], t0
+        for _ in range(n):
+            out.append(t)
+            t += draw(st.sampled_from([0.25, 0.5, 1.0, 1.0, 2.0, 8.0]))
+        return out
+    if kind == "tiny":  # times that are all tiny in absolute terms
+        u = 10.0 ** -draw(st.integers(6, 12))
+        k0 = draw(st.integers(-20, 20))
+        out, k = [], k0
+        for _ in range(n):
+            out.append(k * u)
+            k += draw(st.integers(1, 5))
+        return out
     steps = [gen.r6(draw(st.floats(0.01, 10, **finite))) for _ in range(n)]
     t0 = gen.r6(draw(st.floats(-100, 100, **finite))) if kind in ("neg", "irregular") else 0.0
     out = []
@@ -137,6 +152,23 @@ def lattice_jobs(nsites, nframes=3):
     return jobs
 
 
+# the structure of the histories is enumerated completely for every (periodicity, method, cut-off) combination; the time axis
+# differs between the combinations: irregular, far from zero with unit steps, tiny, and passing through exactly zero
+_LATTICE_TIME_AXES = {
+    (True, "overlap", None): [1e6, 1e6 + 1, 1e6 + 2],
+    (True, "distance", None): [1e-9, 2e-9, 3e-9],
+    (True, "distance", 0.5): [-1, 0, 1],
+    (False, "distance", 1.2): [-2.5, 0.0, 0.5],
+}
+
+
+def _lattice_times(job):
+    if job["nframes"] > 3:
+        return list(range(job["nframes"]))
+    axis = _LATTICE_TIME_AXES.get((bool(job["periodic"]), job["method"], job["max_dist"]), [0, 1.5, 4])
+    return axis[: job["nframes"]]
+
+
 def lattice_expand(job):
     n = job["nsites"]
     subsets = list(range(2**n))
@@ -156,7 +188,7 @@ def lattice_expand(job):
             "dim": 1,
             "site_spacing": 1.0,
             "grid": {"origin": [0.0], "shape": [n], "spacing": [1.0], "periodic": [True]} if job["periodic"] else None,
-            "times": [0, 1.5, 4][: job["nframes"]] if job["nframes"] <= 3 else list(range(job["nframes"])),
+            "times": _lattice_times(job),
             "frames": frames,
             "method": job["method"],
             "max_dist": job["max_dist"],
